@@ -176,11 +176,11 @@ pub fn handshake_early_close(s: &mut Session, thorough: bool) {
     }
 }
 
-pub fn generate(s: &mut Session, tier: &str, rng: &mut Rng) {
-    let thorough = tier == "thorough";
-    // ---- the pure target parser on grammar-generated absolute-form targets
+/// the pure target parser on grammar-generated absolute-form, CONNECT and malformed targets (also run by C01: the host
+/// and port the server is asked to dial are the ones of the request target)
+pub fn target_cases(s: &mut Session, n: usize, rng: &mut Rng) {
+    let thorough = n > 5000;
     s.begin_case("http-targets");
-    let n = if thorough { 20000 } else { 1500 };
     for _ in 0..n {
         let t = Target { scheme: rng.pick(&["http", "http", "https", "ftp", "ws"]).to_string(), host: gen_host(rng), port: if rng.chance(1, 2) { Some(*rng.pick(&[1u16, 80, 81, 443, 8080, 65535])) } else { None }, path: gen_path(rng), query: gen_query(rng) };
         let method = *rng.pick(&["GET", "POST", "PUT", "HEAD", "OPTIONS", "DELETE", "PATCH"]);
@@ -210,6 +210,11 @@ pub fn generate(s: &mut Session, tier: &str, rng: &mut Rng) {
         }
     }
     s.mark_nontrivial();
+}
+
+pub fn generate(s: &mut Session, tier: &str, rng: &mut Rng) {
+    let thorough = tier == "thorough";
+    target_cases(s, if thorough { 20000 } else { 1500 }, rng);
     // ---- whole handshakes over loopback, every kind, several segmentations
     let marker = b"\x16\x03\x01MARK";
     let runs = if thorough { 60 } else { 8 };
